@@ -760,10 +760,12 @@ def generate(ctx):
 
 
 LEVEL_TEXT = (
-    "Lean theorems: invariant principle for Bag.reduction (any split_every >= 2, any partitioning incl. empty partitions) with "
-    "fold/sum/count/topk/frequencies as instances; staged task shuffle routing (every element ends in partition hash mod k^stages, "
-    "nothing lost, equal keys colocated); accumulate = itertools.accumulate; take; repartition keeps the sequence and yields the "
-    "requested number of partitions; product/concat/zip. See notes/bag.md for what is partial.")
+    "Lean theorems (56): invariant principle for Bag.reduction (any split_every >= 2, any partitioning incl. empty partitions) with "
+    "fold, sum, count, max, topk, frequencies, distinct as instances; foldby (dicts as association lists); staged task shuffle: every "
+    "element ends in partition hash mod k^stages, each stage is a permutation (multiset preserved), each key in exactly one partition "
+    "with exactly its elements; disk shuffle placement; accumulate = itertools.accumulate for every binop; take; repartition keeps the "
+    "sequence and yields exactly the requested number of partitions (for any cut points); product (multiset), zip, concat, join, "
+    "map/filter/remove/flatten/pluck/starmap. Validated only: mean/var/std/any/all/min, from_sequence sizes, optimize/lazify, partd.")
 LEVEL_NOTE = (
     "Trusted: Lean kernel + standard axioms; the correspondence harness; toolz kernels on one partition; partd; tokenize as the "
     "hash of groupby keys; bag optimize/lazify and map/filter/pluck glue are covered by the API-level differential check only.")
